@@ -34,6 +34,16 @@ Decided (necessary conditions, visible in the shape of the code):
           back, unless the yielded object is the stored object itself;
       (d) ``set_state`` and ``clear``: every normal path performs a write of the state or delegates to a mutator /
           ``edit_state()`` block that does.  Paths that end in an exception are not normal returns.
+* R4  the parent-type merge of ``merge_state(current, incoming)`` is ``{**current, **full_parent}``: for every return that
+      builds its value from both arguments, the pydantic dump calls (``model_dump`` / ``dict`` / ``model_dump_json`` /
+      ``json``) whose result flows into the returned constructor call (dependence slice through locals, extended by in-place
+      fills ``x.update(…)`` / ``x[k] = …``) are classified by the argument they are taken from; none of them may carry a
+      field filter (``exclude_unset`` / ``exclude_defaults`` / ``exclude_none`` / ``include`` / ``exclude`` / ``skip_defaults``
+      with a value other than a literal False / None / empty collection): a filter on the incoming side leaves old stored
+      values in place for the fields it drops, a filter on the current side re-creates stored fields from their defaults.
+      Reading ``model_fields_set`` into the merged value is the same fault; ``by_alias`` must agree on both sides; when the
+      merged mapping is a literal overlay (``{**a, **b}`` / ``a | b``) its last operand is the incoming side.
+      A filter whose value is not a literal, or a merge in which no read of the incoming fields is found, is an analysis error.
 
 Not decided: equality of values with a nested-dict model over operation sequences (reduced to "both
 stores call the same helpers with the same argument roles"), JSON round-trip fidelity of values, nested
@@ -64,13 +74,19 @@ EXPLANATION = (
     "R3: no mutator skips its write: in `set` of both stores every CFG path to a normal return executes set_by_path (no value-dependent early exit "
     "or guard: Python == is not JSON identity), the object it writes into is the stored object, the object yielded by edit_state(), or a loaded copy "
     "saved on every normal path afterwards; edit_state writes the yielded object back on every normal path after the yield; set_state and clear "
-    "write (or delegate to a mutator) on every normal path. Exception exits are not normal paths. NOT decided: value equality with a nested-dict model over arbitrary sequences, "
+    "write (or delegate to a mutator) on every normal path. Exception exits are not normal paths. "
+    "R4: in merge_state(current, incoming) every return built from both arguments is the parent-type merge, whose nested-dict model is {**current, **full_parent}; the pydantic dump calls "
+    "(model_dump/dict/model_dump_json/json) whose result flows into the returned constructor call (dependence slice through locals plus in-place fills) are classified as incoming-side or current-side "
+    "by the parameter they depend on, and none may carry a field filter (exclude_unset/exclude_defaults/exclude_none/include/exclude/skip_defaults other than a literal False/None/empty collection): "
+    "dropped incoming fields keep their old stored value, dropped current fields are reset to defaults. model_fields_set flowing into the merged value is reported alike; by_alias must agree on both sides; "
+    "a literal overlay ({**a, **b} / a | b) must end with the incoming side. Planted filtered/swapped merges in fixtures/c19/planted_merge.py must be reported on every run. NOT decided: value equality with a nested-dict model over arbitrary sequences, "
     "JSON round-trip fidelity, aliasing below the top level, other store implementations."
 )
 TRUSTED = [
     "CPython ast",
     "pydantic BaseModel.model_copy(): shallow copy of __dict__, private attribute values shared; deep=True copies recursively",
     "serializer.deserialize / class constructors return new objects",
+    "pydantic model_dump()/dict() without include/exclude/exclude_* arguments emit every field of the model",
 ]
 LEVEL_TEXT = "static necessary-condition rules (sibling agreement T5, aliasing T11); no repo code executed"
 LEVEL_NOTE = "A pass means the decided clauses hold, not that both stores equal a nested-dict model for every operation sequence."
@@ -813,6 +829,206 @@ def _r3(chk, stores: list[_Cls], mem: Module) -> None:
 # ----------------------------------------------------------------------------------------------- run
 
 
+# ----------------------------------------------------------------------------------------------- R4: the parent-type merge uses full dumps
+
+DUMP_METHODS = {"model_dump", "dict", "model_dump_json", "json"}
+FIELD_FILTERS = {"exclude_unset", "exclude_defaults", "exclude_none", "include", "exclude", "skip_defaults"}
+SET_FIELDS_ATTRS = {"model_fields_set", "__fields_set__", "__pydantic_fields_set__"}
+FILLERS = ("update", "setdefault", "__setitem__", "append", "extend")
+
+
+def _merge_feed(fn: ast.AST, start: ast.AST) -> list[ast.AST]:
+    """Every expression whose value may flow into `start`: the dependence slice through the locals of fn, extended by what
+    is stored in place into those locals (x.update(…), x[k] = …), to a fixed point."""
+    exprs: list[ast.AST] = []
+    seen: set[int] = set()
+    done: set[str] = set()
+    todo: list[ast.AST] = [start]
+    while todo:
+        sl = dep_slice(fn, todo.pop())
+        for x in sl.exprs:
+            if id(x) not in seen:
+                seen.add(id(x))
+                exprs.append(x)
+        for nm in sl.locals - done:
+            done.add(nm)
+            for st in ast.walk(fn):
+                if isinstance(st, ast.Expr) and isinstance(st.value, ast.Call) and isinstance(st.value.func, ast.Attribute) and st.value.func.attr in FILLERS \
+                        and isinstance(st.value.func.value, ast.Name) and st.value.func.value.id == nm:
+                    todo += list(st.value.args) + [k.value for k in st.value.keywords]
+                elif isinstance(st, ast.Assign) and any(isinstance(t, ast.Subscript) and isinstance(t.value, ast.Name) and t.value.id == nm for t in st.targets):
+                    todo.append(st.value)
+    return exprs
+
+
+def _side(fn: ast.AST, e: ast.AST, cur: str, inc: str) -> str | None:
+    """Which argument of the merge an expression is taken from (dependence on the parameters)."""
+    lv = dep_slice(fn, e).leaves & {cur, inc}
+    return "both" if len(lv) == 2 else "incoming" if lv == {inc} else "current" if lv == {cur} else None
+
+
+def _active_filters(call: ast.Call) -> list[str]:
+    """Field-filter arguments of a pydantic dump call that can drop fields (a literal False / None / empty collection cannot)."""
+    if any(k.arg is None for k in call.keywords) or call.args:
+        raise AnchorError(f"C19.R4: arguments of `{ast.unparse(call)[:60]}` are not plain keywords; its field set cannot be decided")
+    out = []
+    for k in call.keywords:
+        if k.arg not in FIELD_FILTERS:
+            continue
+        v = expand(k.value, call)
+        if isinstance(v, ast.Constant):
+            if v.value:
+                out.append(f"{k.arg}={ast.unparse(k.value)}")
+        elif isinstance(v, (ast.Set, ast.List, ast.Tuple)):
+            if v.elts:
+                out.append(f"{k.arg}={ast.unparse(k.value)[:40]}")
+        elif isinstance(v, ast.Dict):
+            if v.keys:
+                out.append(f"{k.arg}={ast.unparse(k.value)[:40]}")
+        elif isinstance(v, ast.Call) and call_name(v) in ("set", "frozenset", "dict", "list", "tuple") and not v.args and not v.keywords:
+            pass
+        else:
+            raise AnchorError(f"C19.R4: field filter `{k.arg}={ast.unparse(k.value)[:40]}` of a dump that feeds the merge is not a literal")
+    return out
+
+
+def _merge_analysis(fn: ast.AST) -> list[dict]:
+    """Per return of `fn` that builds its result from both arguments (the parent-type merge): the places where the fields of
+    either argument are read into the merged value."""
+    pr = _params(fn)
+    if len(pr) < 2:
+        raise AnchorError("C19.R4: merge_state does not take (current, incoming)")
+    cur, inc = pr[0], pr[1]
+    out = []
+    for r in _returns(fn):
+        v = _strip(expand(r.value, r))
+        if isinstance(v, ast.Name) and v.id in (cur, inc):
+            continue  # replace (or keep): nothing is merged
+        feed = _merge_feed(fn, r.value)
+        names = {n.id for x in feed for n in ast.walk(x) if isinstance(n, ast.Name)}
+        if not {cur, inc} <= names:
+            continue
+        dumps, full, setreads, seen = [], [], [], set()
+        for x in feed:
+            for n in ast.walk(x):
+                if id(n) in seen:
+                    continue
+                seen.add(id(n))
+                if isinstance(n, ast.Call) and isinstance(n.func, ast.Attribute) and n.func.attr in DUMP_METHODS:
+                    sd = _side(fn, n.func.value, cur, inc)
+                    if sd == "both":
+                        raise AnchorError(f"C19.R4: `{ast.unparse(n)[:60]}` dumps an object that depends on both arguments of the merge")
+                    if sd is not None:
+                        dumps.append((sd, n))
+                elif isinstance(n, ast.Call) and call_name(n) in ("dict", "vars") and len(n.args) == 1 and not n.keywords and _side(fn, n.args[0], cur, inc) in ("incoming", "current"):
+                    full.append((_side(fn, n.args[0], cur, inc), n))
+                elif isinstance(n, ast.Attribute) and n.attr == "__dict__" and _side(fn, n.value, cur, inc) in ("incoming", "current"):
+                    full.append((_side(fn, n.value, cur, inc), n))
+                elif isinstance(n, ast.Attribute) and n.attr in SET_FIELDS_ATTRS and _side(fn, n.value, cur, inc) in ("incoming", "current"):
+                    setreads.append((_side(fn, n.value, cur, inc), n))
+        # precedence: the mapping handed to the constructor, when it is a literal overlay
+        order = None
+        if isinstance(v, ast.Call):
+            for cand in list(v.args) + [k.value for k in v.keywords if k.arg is None]:
+                parts = _overlay_parts(cand)
+                if parts is not None:
+                    sides = [_side(fn, p_, cur, inc) for p_ in parts]
+                    if "incoming" in sides and "current" in sides:
+                        order = (sides, cand)
+        out.append({"ret": r, "cur": cur, "inc": inc, "dumps": dumps, "full": full, "setreads": setreads, "order": order})
+    return out
+
+
+def _overlay_parts(e: ast.AST) -> list[ast.AST] | None:
+    """The operands, first to last (later ones win), of `{**a, **b}` / `a | b`."""
+    if isinstance(e, ast.Dict) and e.keys and all(k is None for k in e.keys):
+        return list(e.values)
+    if isinstance(e, ast.BinOp) and isinstance(e.op, ast.BitOr):
+        l, r = _overlay_parts(e.left), _overlay_parts(e.right)
+        return (l if l is not None else [e.left]) + (r if r is not None else [e.right])
+    return None
+
+
+_WHY_SIDE = {
+    "incoming": "fields of the incoming parent-type state that the filter drops are not written and keep the old stored value, while the nested-dict model of a parent-type merge "
+                "is {**current, **full_parent}: a later get/get_state returns the stale value (e.g. a field the caller left at its default)",
+    "current": "stored fields that the filter drops are re-created from their defaults (or default factories) by the constructor: the merge loses stored values the parent never mentioned",
+}
+
+
+def _r4_report(chk, m: Module | None, fn: ast.AST, res: list[dict], label: str) -> tuple[int, int, int]:
+    """Record the obligations of R4 for one merge function; returns (#merge returns, #field sources classified, #violations)."""
+    nsrc = nbad = 0
+    for d in res:
+        r = d["ret"]
+        if not any(sd == "incoming" for sd, _n in d["dumps"] + d["full"]):
+            raise AnchorError(f"C19.R4: cannot see how the fields of `{d['inc']}` reach the merged value returned by `{ast.unparse(r)[:60]}`")
+        for sd, n in d["dumps"]:
+            nsrc += 1
+            act = _active_filters(n)
+            nbad += bool(act)
+            chk.ob("C19.R4", f"{label}: the dump of the {sd} state that feeds the parent-type merge carries every field (`{ast.unparse(n)[:70]}` has no pydantic field filter)", not act,
+                   m=m, node=n, fn=fn, instance=f"{label}:{sd}-dump", reason=f"`{', '.join(act)}`: " + _WHY_SIDE[sd])
+        nsrc += len(d["full"])
+        for sd, n in d["setreads"]:
+            nbad += 1
+            chk.ob("C19.R4", f"{label}: the parent-type merge does not select fields by what was explicitly set", False, m=m, node=n, fn=fn, instance=f"{label}:{sd}-fields-set",
+                   reason=f"`{ast.unparse(n)[:60]}` flows into the merged value: only explicitly set fields of the {sd} state take part; " + _WHY_SIDE[sd])
+        al = {sd: {ast.dump(k.value) for _s, n in d["dumps"] if _s == sd for k in n.keywords if k.arg == "by_alias" and not (isinstance(k.value, ast.Constant) and not k.value.value)} for sd in ("incoming", "current")}
+        if any(_s == "incoming" for _s, _n in d["dumps"]) and any(_s == "current" for _s, _n in d["dumps"]):
+            same = al["incoming"] == al["current"]
+            nbad += not same
+            chk.ob("C19.R4", f"{label}: both dumps of the parent-type merge name the fields alike (`by_alias` agrees)", same, m=m, node=r, fn=fn, instance=f"{label}:key-naming",
+                   reason="one side is dumped by alias and the other by field name: for an aliased field the incoming value does not overwrite the stored one")
+        if d["order"] is not None:
+            sides, cand = d["order"]
+            ok = sides[-1] == "incoming"
+            nbad += not ok
+            chk.ob("C19.R4", f"{label}: in the merged mapping the incoming fields are laid over the current ones (`{ast.unparse(cand)[:70]}`)", ok, m=m, node=r, fn=fn, instance=f"{label}:incoming-over-current",
+                   reason=f"the last operand of the overlay comes from the {sides[-1]} state: stored values win over the ones being set")
+        else:
+            chk.observe(f"C19.R4: the merged value of {label} is not a literal overlay (`{{**a, **b}}` / `a | b`); which side wins is not decided")
+    return len(res), nsrc, nbad
+
+
+R4_FIXTURE = __import__("pathlib").Path(__file__).resolve().parent.parent.parent / "fixtures" / "c19" / "planted_merge.py"
+
+
+def _r4(chk, repo: Repo) -> None:
+    m, fn = repo.func(f"{MEM}:merge_state")
+    res = _merge_analysis(fn)
+    if not res:
+        raise AnchorError("C19.R4: merge_state has no return that builds its result from both arguments (the parent-type merge)")
+    nret, nsrc, _ = _r4_report(chk, m, fn, res, "merge_state")
+    chk.floor("C19.R4", "returns of merge_state that build the merged state from both arguments", nret, 1)
+    chk.floor("C19.R4", "field sources of the parent-type merge classified (incoming.model_dump(), current_state.model_dump())", nsrc, 2)
+    # planted positives: the zero-expected detectors must report them (fixture parsed with ast, never imported)
+    if not R4_FIXTURE.is_file():
+        raise AnchorError(f"C19.R4: fixture {R4_FIXTURE} missing")
+    from ..index import _set_parents
+
+    tree = ast.parse(R4_FIXTURE.read_text(encoding="utf-8"))
+    _set_parents(tree)
+
+    class _Quiet:
+        def ob(self, *a, **k):
+            pass
+
+        def observe(self, *a, **k):
+            pass
+
+    planted = clean = 0
+    for f in tree.body:
+        if isinstance(f, FuncNode):
+            bad = _r4_report(_Quiet(), None, f, _merge_analysis(f), f.name)[2]
+            if f.name.startswith("planted_"):
+                planted += bad >= 1
+            elif f.name.startswith("clean_"):
+                clean += bad == 0
+    chk.floor("C19.R4", "planted filtered / set-fields-only / swapped merges reported on fixtures/c19/planted_merge.py", planted, 5)
+    chk.floor("C19.R4", "clean merges of fixtures/c19/planted_merge.py accepted", clean, 2)
+
+
 def run(chk) -> None:
     repo: Repo = chk.repo
     mem = repo.module(MEM)
@@ -953,6 +1169,9 @@ def run(chk) -> None:
 
     # ---------------------------------------------------------------- R3: no mutator has a normal path that skips its write
     _r3(chk, stores, mem)
+
+    # ---------------------------------------------------------------- R4: the parent-type merge reads full dumps of both states
+    _r4(chk, repo)
     chk.observe("C19: value-level equality with a nested-dict model over operation sequences is not decided; R1 reduces it to both stores calling the "
                 "same four helpers with the same argument roles and to set_state never writing an unmerged value.")
 
@@ -989,6 +1208,8 @@ _SET_STATE_NOW = '        async with self._lock:\n            current_state = se
 _SET_STATE_PRE_FIX = '        conn = self._connect()\n        try:\n            cursor = conn.cursor()\n            cursor.execute(\n                "SELECT state_json FROM workflow_state WHERE run_id = ?",\n                (self._run_id,),\n            )\n            row = cursor.fetchone()\n\n            if row is None:\n                self._save_state(state, conn)\n                conn.commit()\n                return\n\n            current_state = self._deserialize_state(row[0])\n            merged = merge_state(current_state, state)\n            self._save_state(merged, conn)  # type: ignore[arg-type]\n            conn.commit()\n        finally:\n            self._release(conn)\n'
 _SQL_SET_NOW = "        async with self.edit_state() as state:\n            set_by_path(state, path, value)\n"
 _HOOK_COPY = "        if not deep:\n            # pydantic's shallow copy shares private attribute values; the dynamic\n            # fields live in `_data`, so give the copy its own top-level dict.\n            copied._data = dict(self._data)\n"
+
+_MERGE_NOW = "        parent_data = incoming.model_dump()\n        return current_type.model_validate(\n            {**current_state.model_dump(), **parent_data}\n        )\n"
 
 TWINS = [
     # ---- R1 breaking
@@ -1076,4 +1297,18 @@ TWINS = [
          "            loaded = self._load_state()\n            yield loaded\n            self._save_state(loaded)", None),
     Twin("benign: sqlite set_state returns explicitly after the save", _PS, "            self._save_state(merged)  # type: ignore[arg-type]",
          "            self._save_state(merged)  # type: ignore[arg-type]\n            return None", None),
+    # ---- R4 the parent-type merge reads full dumps
+    Twin("merge applies only the explicitly set parent fields (exclude_unset on the incoming dump)", _PM, "parent_data = incoming.model_dump()", "parent_data = incoming.model_dump(exclude_unset=True)", "C19.R4"),
+    Twin("merge skips parent fields that are None (filter on an inlined dump)", _PM, _MERGE_NOW,
+         "        return current_type.model_validate(\n            {**current_state.model_dump(), **incoming.model_dump(exclude_none=True)}\n        )\n", "C19.R4"),
+    Twin("merge fills the stored dump in place from a dump without defaults", _PM, _MERGE_NOW,
+         "        merged_data = current_state.model_dump()\n        merged_data.update(incoming.model_dump(exclude_defaults=True))\n        return current_type.model_validate(merged_data)\n", "C19.R4"),
+    Twin("merge keeps only the set fields through model_fields_set", _PM, "parent_data = incoming.model_dump()",
+         "parent_data = {k: v for k, v in incoming.model_dump().items() if k in incoming.model_fields_set}", "C19.R4"),
+    Twin("stored side dumped without its None fields", _PM, "{**current_state.model_dump(), **parent_data}", "{**current_state.model_dump(exclude_none=True), **parent_data}", "C19.R4"),
+    Twin("incoming side dumped with a literal exclude set", _PM, "parent_data = incoming.model_dump()", 'parent_data = incoming.model_dump(exclude={"updated_at"})', "C19.R4"),
+    Twin("stored values win over the incoming ones (overlay order swapped)", _PM, "{**current_state.model_dump(), **parent_data}", "{**parent_data, **current_state.model_dump()}", "C19.R4"),
+    Twin("benign: filters spelled out as off, python mode", _PM, "parent_data = incoming.model_dump()", 'parent_data = incoming.model_dump(mode="python", exclude_unset=False, exclude=None)', None),
+    Twin("benign: merged mapping through a local and the | operator, guard-style branches", _PM, _MERGE_NOW,
+         "        stored_data = current_state.model_dump()\n        merged_data = stored_data | incoming.model_dump()\n        return current_type.model_validate(merged_data)\n", None),
 ]
